@@ -674,7 +674,7 @@ func runMore(a *Analyzer, r *Results) {
 				if why != "" {
 					why = "the slice stored into " + nt.Obj().Name() + "." + fieldName(fa.X.Type(), fa.Field) + " " + why
 				}
-				r.Check("W5.fresh", props("C20", "C11"), "a slice stored into a protocol builder is never shared between the builders of different elements: where the store, or a call chain leading to it, sits in a loop, the backing array is allocated in that same iteration", shortName(f)+"|"+nt.Obj().Name()+"."+fieldName(fa.X.Type(), fa.Field), a.P.InstrPos(in), why == "", why, "D")
+				r.Check("W5.fresh", props("C20", "C11", "C09", "C05"), "a slice stored into a protocol builder is never shared between the builders of different elements: where the store, or a call chain leading to it, sits in a loop, the backing array is allocated in that same iteration", shortName(f)+"|"+nt.Obj().Name()+"."+fieldName(fa.X.Type(), fa.Field), a.P.InstrPos(in), why == "", why, "D")
 			}
 		}
 	}
